@@ -64,10 +64,64 @@ def setIdx {α} (xs : List α) (i : Int) (v : α) : Except Err (List α) :=
 /-- `range(n)` -/
 def rangeInt (n : Int) : List Int := (List.range n.toNat).map Int.ofNat
 
-/-- `read_byte(infile)` of midifiles.py on the bytes not yet consumed (`infile.read(1)`, `EOFError` at the end) -/
-def readByte : List Int → Except Err (Int × List Int)
+/-- a binary file that is being read: the bytes not yet consumed and the position (`tell()`) -/
+structure PyFile where
+  rest : List Int
+  pos : Int := 0
+  deriving DecidableEq, Repr, Inhabited
+
+/-- `read_byte(infile)` of midifiles.py (`infile.read(1)`, `EOFError` at the end, `ord`) -/
+def readByte (f : PyFile) : Except Err (Int × PyFile) :=
+  match f.rest with
   | [] => .error .EOFError
-  | b :: rest => .ok (b, rest)
+  | b :: rest => .ok (b, { rest := rest, pos := f.pos + 1 })
+
+/-- `[read_byte(infile) for _ in range(n)]`: `n` bytes or `EOFError` (a count below 1 reads nothing) -/
+def readN (f : PyFile) (n : Int) : Except Err (List Int × PyFile) :=
+  if f.rest.length < n.toNat then .error .EOFError
+  else .ok (f.rest.take n.toNat, { rest := f.rest.drop n.toNat, pos := f.pos + n.toNat })
+
+/-- `infile.read(n)`: up to `n` bytes (fewer at the end of the file) -/
+def readUpTo (f : PyFile) (n : Int) : List Int × PyFile :=
+  let k := min n.toNat f.rest.length
+  (f.rest.take k, { rest := f.rest.drop k, pos := f.pos + k })
+
+/-- `infile.tell()` -/
+def tell (f : PyFile) : Int := f.pos
+
+/-- big-endian value of a byte list -/
+def beVal : List Int → Int
+  | [] => 0
+  | b :: r => b * 256 ^ r.length + beVal r
+
+/-- `struct.unpack('>4sL', header)`: needs exactly 8 bytes -/
+def unpack4sL (h : List Int) : Except Err (List Int × Int) :=
+  if h.length = 8 then .ok (h.take 4, beVal (h.drop 4)) else .error .StructError
+
+def s16 (a b : Int) : Int := let u := a * 256 + b; if u ≥ 32768 then u - 65536 else u
+
+/-- `struct.unpack('>hhh', data)`: needs exactly 6 bytes -/
+def unpackHHH (d : List Int) : Except Err (Int × Int × Int) :=
+  match d with
+  | [a, b, c, d', e, f] => .ok (s16 a b, s16 c d', s16 e f)
+  | _ => .error .StructError
+
+/-- the constructors of message objects that the file reader calls; their behaviour (including what they raise) is
+    a parameter of the translated reader -/
+structure ReaderExt (M : Type) where
+  buildMeta : Int → List Int → Int → Except Err M
+  mkSysex : List Int → Int → Except Err M
+  fromBytes : List Int → Int → Except Err M
+
+/-- `try: x = e  except E: raise X`: the exception of `e` is mapped -/
+def mapErr {α} (f : Err → Err) : Except Err α → Except Err α
+  | .ok v => .ok v
+  | .error e => .error (f e)
+
+/-- a value known not to be None on this path -/
+def optGet : Option Int → Except Err Int
+  | some v => .ok v
+  | none => .error .TypeError
 
 /-- `struct.pack('>h', v)` as two bytes -/
 def packI16 (v : Int) : Except Err (List Int) :=
